@@ -25,7 +25,7 @@ theorem strings_wf_reachable (vs top base : Nat) (h : vs ≤ top) (h16 : top < 6
 
 example : Layout (run (init 4720 65020 0)
     [.dim [65, 37] [3], .dim [66, 37] [3], .letv (.el [66, 37] [1]) (.num [0x78, 0x56]),
-     .letv (.sc [83, 36]) (.str [104, 105]), .erase [65, 37]]) := wf_reachable _ _ _ (by decide) _
+     .letv (.sc [83, 36]) (.str [104, 105]), .erase [[65, 37]]]) := wf_reachable _ _ _ (by decide) _
 
 /-! ### PEEK at VARPTR -/
 
@@ -317,7 +317,7 @@ def demoState : VM :=
   run (init 4720 65020 0)
     [.dim [65, 37] [3], .dim [66, 36] [2, 1], .letv (.sc [88, 35]) (.num [1, 2, 3, 4, 5, 6, 7, 0x81]),
      .letv (.sc [83, 36]) (.str [104, 105]), .letv (.el [66, 36] [1, 1]) (.str [120, 121, 122]),
-     .swap (.sc [83, 36]) (.el [66, 36] [1, 1]), .erase [65, 37]]
+     .swap (.sc [83, 36]) (.el [66, 36] [1, 1]), .erase [[65, 37]]]
 
 example : varptr demoState (.sc [88, 35]) = .ok 4724 ∧ varptr demoState (.el [66, 36] [1, 1]) = .ok 4762
     ∧ (findA [66, 36] demoState.arrays).isSome = true
@@ -503,6 +503,43 @@ theorem assign_frame_readback {s : VM} (hs : StrOK s) (d : Dst) (v : Val) (d' : 
   · simp only [hd, if_true, hraw]
     exact derefCell_stable hs (rawCell_ptrOK hs d' hd) (letStmt_strs d v s)
   · simp [hd, hraw]
+
+
+/-! ### ERASE of a list of names -/
+
+/-- `ERASE n1, n2, …` (one statement, successful or failing part-way on an undeclared or repeated name): every
+    scalar and every element of an array that is not named reads back the same bytes and the same value.
+    (That the surviving arrays are moved to addresses that are again consecutive, disjoint and inside the
+    array area is `wf_reachable` + the `*_inside` / `*_disjoint` theorems, which hold in every reachable state;
+    that PEEK at the moved VARPTR still shows the element is `peek_varptr_element`.) -/
+theorem erase_frame (names : List Bytes) (s : VM) :
+    (∀ n', rawCell (eraseList names s).state (.sc n') = rawCell s (.sc n')
+        ∧ readBack (eraseList names s).state (.sc n') = readBack s (.sc n'))
+    ∧ (∀ n' idx, n' ∉ names → rawCell (eraseList names s).state (.el n' idx) = rawCell s (.el n' idx)
+        ∧ readBack (eraseList names s).state (.el n' idx) = readBack s (.el n' idx)) := by
+  obtain ⟨f1, f2, f3, f4⟩ := eraseList_frame names s
+  have hsc : ∀ n', rawCell (eraseList names s).state (.sc n') = rawCell s (.sc n') :=
+    fun n' => by simp only [rawCell, f1]
+  have hel : ∀ n' idx, n' ∉ names →
+      rawCell (eraseList names s).state (.el n' idx) = rawCell s (.el n' idx) := by
+    intro n' idx hn
+    have h := f4 n' hn
+    simp only [rawCell, f2]
+    cases h1 : findA n' (eraseList names s).state.arrays with
+    | none =>
+      cases h2 : findA n' s.arrays with
+      | none => rfl
+      | some a => rw [h1, h2] at h; simp at h
+    | some a' =>
+      cases h2 : findA n' s.arrays with
+      | none => rw [h1, h2] at h; simp at h
+      | some a =>
+        rw [h1, h2] at h
+        simp only [Option.map_some, Option.some.injEq, coreA, Prod.mk.injEq] at h
+        simp only [Option.bind_some, h.1, h.2]
+  refine ⟨fun n' => ⟨hsc n', ?_⟩, fun n' idx hn => ⟨hel n' idx hn, ?_⟩⟩
+  · simp only [readBack, hsc n', derefCell, f3]
+  · simp only [readBack, hel n' idx hn, derefCell, f3]
 
 
 end PcbV.C11
